@@ -247,6 +247,14 @@ func genC10(t *rapid.T) c10Case {
 	c := c10Case{Mode: genCleanMode(t), Sort: rapid.IntRange(0, 2).Draw(t, "sort") > 0, Count: 1, ForeignTmp: rapid.IntRange(0, 3).Draw(t, "foreigntmp") == 0}
 	for i := 0; i < nfiles; i++ {
 		cfg := CfgSpec{Dir: "snaps", Filename: []string{"f", "g"}[i]}
+		switch rapid.IntRange(0, 5).Draw(t, "nameshape") {
+		case 0: // `.snap` occurs inside the name, in front of the real one
+			cfg.Filename = []string{"v1.snapshots", "api.snapshot_golden"}[i]
+		case 1: // an Ext is appended as it is: no dot of its own
+			cfg.Ext = rapid.SampledFrom([]string{"_golden", "-linux", "json"}).Draw(t, "dotlessext")
+		case 2:
+			cfg.Ext = rapid.SampledFrom([]string{".txt", ".snap", ".orig"}).Draw(t, "ext")
+		}
 		c.Files = append(c.Files, genCleanFile(t, cfg, names, o, col, 25, true))
 	}
 	// a skip protects the test (and its sub tests) in EVERY file: a test is parked only if none of its entries anywhere is
